@@ -23,13 +23,17 @@ LEVEL = "model_checking"
 BIN = "c06_cmap"
 
 ASSUMPTIONS = [
-    "generated subtables are well formed (sorted, non-overlapping segments/groups, offsets inside the glyph "
-    "array, glyph ids <= 65535); behaviour on malformed cmap data is property C01's",
+    "generated subtables of the families f0/f2/f2x/f4/f6/f10/f12 are well formed (sorted, non-overlapping "
+    "segments/groups, offsets inside the glyph array, glyph ids <= 65535); the hand-laid families f4x / f12x also hold "
+    "idRangeOffsets that are odd or leave the glyph array and glyph ids above 65535 (no requirement on those codes, "
+    "the other codes of the same table are still decided) and unsorted / overlapping segment and group lists "
+    "(Dev_UnsortedAny: the glyph of any holder of the code, or what binary search yields; Dev_EnumOverlapDup: the "
+    "enumeration may list such a code once per holder); anything else about malformed cmap data is property C01's",
     "named nondeterminism of the specification: Dev_Fmt2Incomplete (16-bit codes that are not complete format-2 "
     "characters), Dev_Fmt4WideCodeErr (subtable-level Err for codes > 0xFFFF in format 4), Dev_FontographerRO "
     "(idRangeOffset 0xFFFF read as 0), Dev_MacCurrency, Dev_MacRomanPdfSubset, Dev_MacSymbolPUA, "
-    "Dev_Big5DecodeSuperset, Dev_EnumZeros",
-    "Big5 lookups are specified for a sample of eight characters from the Big5 standard; the full table is only "
+    "Dev_Big5DecodeSuperset, Dev_EnumZeros, Dev_UnsortedAny, Dev_EnumOverlapDup",
+    "Big5 lookups are specified for a sample of fourteen characters from the Big5 standard; the full table is only "
     "checked for the inverse law",
     "repository fonts: raw cmap / OS/2 bytes are fetched through allsorts' container layer (sfnt/TTC/WOFF/WOFF2), "
     "the subtable itself is decoded by the harness' own reader",
@@ -65,16 +69,19 @@ def _gen_violation(m):
 
 def _collect_cases(ctx, cfg, cases_path, workers, timeout):
     n = [0]
+    uvs = [0]
     samples = {}
     with open(cases_path, "w") as fc:
         def sink(tag, payload):
             if tag == "CASE":
                 fc.write(payload + "\n")
                 n[0] += 1
+                if '"fmt":14' in payload:
+                    uvs[0] += 1
                 if len(payload) < 1500:
                     samples.setdefault(json.loads(payload).get("fam"), payload)
         mc = vlib.run_tlc(ctx, "MC_Cmap", cfg, "mc", workers=workers, timeout=timeout, sink=sink)
-    return mc, n[0], samples
+    return mc, n[0], samples, uvs[0]
 
 
 def _plant_generated(cases_path):
@@ -141,7 +148,7 @@ def run(ctx):
     binp = vlib.build_harness(BIN)
     cfg = "MC_Cmap_quick.cfg" if ctx.quick else "MC_Cmap_thorough.cfg"
     cases_path = ctx.path("cases.ndjson")
-    mc, n_cases, samples = _collect_cases(ctx, cfg, cases_path, 8, 600 if ctx.quick else 1500)
+    mc, n_cases, samples, n_uvs = _collect_cases(ctx, cfg, cases_path, 6, 1500 if ctx.quick else 3000)
     ctx.note("MC_Cmap: %d states generated, %d distinct, %d cases (%.1fs)" % (mc.generated, mc.distinct, n_cases, mc.wall))
     if n_cases == 0:
         raise vlib.ToolError("no CASE lines generated")
@@ -276,6 +283,7 @@ def run(ctx):
         "samples": sample_cases,
         "generated_cases": n_cases,
         "generated_font_cases": rep.get("font_cases", 0),
+        "generated_font_cases_with_uvs_record": n_uvs,
         "generated_probes_executed_on_impl": rep.get("probes_executed", 0),
         "generated_enumerations_judged": rep.get("enumerations", 0),
         "spec_rule_hits": branches,
@@ -292,10 +300,15 @@ def run(ctx):
                        (cfg, "listed codes strided to 3000 per font" if ctx.quick else "all listed codes"),
     }
     need = ["f0:in", "f2:single", "f2:double", "f4:delta", "f4:gia", "f4:gia0", "f4:fontographer", "f4:none", "f4:wide",
-            "f6:in", "f12:in", "f12:none", "Symbol:nocode", "AppleRoman:notmac", "Big5:f2:double"]
+            "f6:in", "f12:in", "f12:none", "Symbol:nocode", "AppleRoman:notmac", "Big5:f2:double",
+            "f4:bad", "f4:unsorted:multi", "f4:unsorted:one", "f12:unsorted:multi", "f12:unsorted:one", "f12:bad",
+            "f2:double:zero", "f2:single:zero", "Symbol:pua:f12:in", "Symbol:f0:in", "AppleRoman:mac:f12:in",
+            "AppleRoman:mac:f4:delta", "Big5:f4:delta", "Unicode:f12:in"]
     missing = [b for b in need if not branches.get(b)]
     if missing:
         raise vlib.ToolError("vacuity guard: rules never exercised by the generated cases: %s" % missing)
+    if n_uvs == 0:
+        raise vlib.ToolError("vacuity guard: no generated font carries a (0, 5) variation-sequences record")
     vlib.finish(ctx, LEVEL, coverage, violations, ASSUMPTIONS)
 
 
